@@ -33,6 +33,8 @@ func init() {
 				Old: "\tbuf.flushEndpointTierUpdates()\n\n\t// Then flush removals in reverse order.\n\tbuf.flushEndpointTierDeletes()\n\tbuf.flushProfileDeletes()\n\tbuf.flushPolicyDeletes()\n", New: "\tbuf.flushProfileDeletes()\n\tbuf.flushPolicyDeletes()\n\tbuf.flushEndpointTierUpdates()\n\tbuf.flushEndpointTierDeletes()\n", Expect: "C02.order/Flush/WorkloadEndpointUpdate<ActivePolicyRemove"},
 			{Name: "route adds before VTEP adds", File: "felix/calc/event_sequencer.go",
 				Old: "\tbuf.flushVTEPAdds()\n\tbuf.flushRouteAdds()\n", New: "\tbuf.flushRouteAdds()\n\tbuf.flushVTEPAdds()\n", Expect: "C02.order/Flush/VXLANTunnelEndpointUpdate<RouteUpdate"},
+			{Name: "VTEP update no longer cancels the pending remove (seeded C02-1)", File: "felix/calc/event_sequencer.go",
+				Old: "\tbuf.pendingVTEPDeletes.Discard(node)\n", New: "", Expect: "C02.cancel/pendingVTEPUpdates"},
 			{Name: "enqueue policy delete without sent check", File: "felix/calc/event_sequencer.go",
 				Old: "\tif buf.sentPolicies.Contains(key) {\n\t\tbuf.pendingPolicyDeletes.Add(key)\n\t}", New: "\tbuf.pendingPolicyDeletes.Add(key)", Expect: "C02.sentguard/ActivePolicyRemove"},
 			{Name: "VTEP delete enqueued when NOT sent", File: "felix/calc/event_sequencer.go",
@@ -94,6 +96,10 @@ func runC02(c *Ctx) {
 	c02SentGuard(c, m)
 	c02IPSet(c, m)
 	c02InSync(c, p)
+	// An update queued after a remove in the same flush window must cancel the remove (and vice
+	// versa): otherwise the object is removed although it is still referenced (shared with C01).
+	c.Rule("C02.cancel", "E-PAIR", "per message family: a store into the pending-update map discards the same key from the pending-delete set on every path, and an Add to the pending-delete set deletes the key from the update map (no Remove is emitted for an object that was re-announced before the flush)", 24)
+	c01Cancel(c, m, c01Families(c, m), "C02.cancel")
 }
 
 // orderSites lists the instructions of fn that emit msg, directly or through callees.
